@@ -67,7 +67,15 @@ for _i, _cells in enumerate([
     LEGACY[f"empty-nested-{_i}"] = {"survey": [{"type": "text", "name": "q", **_cells},
                                                {"type": "begin group", "name": "g", "label::en": "G", "label::fr": "", "bind::foo": "", "relevant": "${q} != ''"},
                                                {"type": "text", "name": "i", "label": "I", "instance::x": "", "body::y": ""}, {"type": "end group"}]}
+LEGACY["zero-choice-column"] = {"survey": [{"type": "select_one c", "name": "s", "label": "S"}],
+                                "choices": [{"list_name": "c", "name": "x", "label": "X", "w": "0"}, {"list_name": "c", "name": "y", "label": "Y", "w": "1"}]}
+LEGACY["trigger-forms"] = {"survey": [{"type": "text", "name": "a", "label": "A"}, {"type": "calculate", "name": "k", "calculation": "now()", "trigger": "${a}"},
+                                      {"type": "background-geopoint", "name": "bg", "trigger": "${a}"}, {"type": "text", "name": "t", "label": "T", "trigger": "${a}", "calculation": "1"}]}
 KNOWN_LEGACY = {
+    # explicitly empty cells of dict input (no spreadsheet reader produces them)
+    "empty-title": {"survey": [{"type": "text", "name": "q", "label": "Q"}], "settings": [{"form_title": "", "form_id": "f1"}]},
+    "empty-choice-column": {"survey": [{"type": "select_one c", "name": "s", "label": "S"}],
+                            "choices": [{"list_name": "c", "name": "x", "label": "X", "w": "0"}, {"list_name": "c", "name": "y", "label": "Y", "w": ""}]},
     "add-none-option": {"survey": [{"type": "select_multiple c", "name": "s", "label": "S"}], "choices": CH2, "settings": [{"add_none_option": "yes"}]},
 }
 
